@@ -844,6 +844,85 @@ qtls_spec("handle_encrypted_extensions", RB1, calls=[("get_extensions", RB1)])
 qtls_spec("handle_record", [("record_type", "Nat"), ("record", "Bytes")],
           calls=[("handle_client_hello", RB1), ("handle_server_hello", RB1), ("handle_encrypted_extensions", RB1)])
 
+# quic_session.py, the packet path over the MODEL's state record itself (`TLX.Quic.Session.St σ`, σ = the QuicTlsSession object):
+# `handle_frame`, `decrypt_packet`. A frame object is the model's `Out` (the parsed frame + what is read of `frame.src_packet`),
+# a packet object the model's `Pkt`, a QuicDecryptor the model's `Dec`; `self.decryptors["…"]` are the four Option fields
+# (KeyError on `none`, `maybe_keys`). Externals: handle_crypto_frame, check_key_epoch, get_full_packet_number,
+# set_largest_packet_number (the last three are translated in groups Pn / QuicSess on their own), `QuicDecryptor.decrypt`, parse_frames.
+QS_ST = "TLX.Quic.Session.St σ"
+OUT = "TLX.Quic.Session.Out"
+PKT = "TLX.Quic.Pkt"
+QS_DECL = ("/-- `isinstance(frame, C)` for the frame classes of quic_frame.py (all direct subclasses of `Frame`) -/\n"
+           f"def QS.isCrypto (f : {OUT}) : Bool := match f.frame with | .parsed (.crypto ..) => true | _ => false\n"
+           f"def QS.isStream (f : {OUT}) : Bool := match f.frame with | .parsed (.stream ..) => true | _ => false\n"
+           f"def QS.isNewCid (f : {OUT}) : Bool := match f.frame with | .parsed (.newConnectionId ..) => true | _ => false\n"
+           f"def QS.isClose (f : {OUT}) : Bool := match f.frame with | .parsed (.connectionClose ..) => true | _ => false\n"
+           f"def QS.isVersionNeg (f : {OUT}) : Bool := match f.frame with | .versionNeg => true | _ => false\n"
+           "/-- `frame.connection_id` (read for a NewConnectionIdFrame only) -/\n"
+           f"def QS.connectionId (f : {OUT}) : Bytes := match f.frame with | .parsed (.newConnectionId _ _ _ _ cid _) => cid | _ => []\n"
+           "/-- `isinstance(quic_packet, ShortQuicPacket)` / `LongQuicPacket` (the two classes are disjoint) -/\n"
+           f"def QS.isShort (p : {PKT}) : Bool := decide (p.htype = .short)\n"
+           f"def QS.isLong (p : {PKT}) : Bool := decide (p.htype = .long)\n")
+GROUPS["QuicSess2"] = dict(imports=["TLX.PyRt", "TLX.Quic.Session"], decls=[QS_DECL], options=["set_option linter.unusedVariables false"])
+QS_PLACES = [("self.server_cids", "serverCids", "Set Bytes", "s"), ("self.client_cids", "clientCids", "Set Bytes", "s"),
+             ("self.output_buffer", "out", f"List {OUT}", "s"),
+             ("self.epoch_server", "epochServer", "Nat", "s"), ("self.epoch_client", "epochClient", "Nat", "s"),
+             ("self.decryptors['Initial']", "decInitial", f"Option {QDEC}", "s"),
+             ("self.decryptors['Handshake']", "decHandshake", f"Option {QDEC}", "s"),
+             ("self.decryptors['Early']", "decEarly", f"Option {QDEC}", "s"),
+             ("self.decryptors['Application']", "decApp", f"Option (List {QDEC})", "s")]
+QS_KEYS = ["self.decryptors['Initial']", "self.decryptors['Handshake']", "self.decryptors['Early']", "self.decryptors['Application']"]
+QS_RES = f"PyRt.Res ({QS_ST})"
+QS_EXT = {"handle_crypto_frame": ("handle_crypto_frame", f"{QS_ST} → {OUT} → {QS_RES} Unit"),
+          "check_key_epoch": ("check_key_epoch", f"{QS_ST} → Option Nat → Bool → {QS_RES} Unit"),
+          "get_full_packet_number": ("get_full_packet_number", f"{QS_ST} → {PKT} → {QS_RES} Bytes"),
+          "set_largest_packet_number": ("set_largest_packet_number", f"{QS_ST} → {PKT} → Bytes → {QS_RES} Unit"),
+          "dec_decrypt": ("dec_decrypt", f"{QDEC} → Option Bytes → Bytes → Bytes → Bool → Except PyRt.Err Bytes"),
+          "parse_frames": ("parse_frames", f"Bytes → {PKT} → Except PyRt.Err (List {OUT})")}
+QS_ATTRS = {(OUT, "src_packet"): ("id", OUT + ".src"), (OUT + ".src", "isserver"): (f"{OUT}.isServer", "Bool"),
+            (OUT, "connection_id"): ("QS.connectionId", "Bytes"),
+            (PKT, "packet_type"): (f"{PKT}.ptype", PT), (PKT, "isserver"): (f"{PKT}.isServer", "Bool"),
+            (PKT, "key_phase"): (f"{PKT}.keyPhase", "Option Nat"), (PKT, "first_byte"): (f"{PKT}.firstByte", "Bytes"),
+            (PKT, "version"): (f"{PKT}.version", "Option Bytes"), (PKT, "dcid_len"): (f"{PKT}.dcidLen", "Option Bytes"),
+            (PKT, "dcid"): (f"{PKT}.dcid", "Bytes"), (PKT, "scid_len"): (f"{PKT}.scidLen", "Option Bytes"),
+            (PKT, "scid"): (f"{PKT}.scid", "Option Bytes"), (PKT, "token_len_bytes"): (f"{PKT}.tokenLenBytes", "Option Bytes"),
+            (PKT, "token"): (f"{PKT}.token", "Option Bytes"), (PKT, "packet_len_bytes"): (f"{PKT}.lenBytes", "Option Bytes"),
+            (PKT, "packet_num"): (f"{PKT}.pn", "Option Bytes"), (PKT, "payload"): (f"{PKT}.payload", "Option Bytes")}
+QS_CLASSES = {(OUT, "CryptoFrame"): "QS.isCrypto", (OUT, "StreamFrame"): "QS.isStream", (OUT, "NewConnectionIdFrame"): "QS.isNewCid",
+              (OUT, "ConnectionCloseFrame"): "QS.isClose", (OUT, "PseudoVersionNegotiationFrame"): "QS.isVersionNeg",
+              (PKT, "ShortQuicPacket"): "QS.isShort", (PKT, "LongQuicPacket"): "QS.isLong"}
+QSF = "tlexport/quic/quic_session.py"
+
+
+def qs_spec(func, params, ext, name=None, **more):
+    spec = dict(name="QS." + (name or func), group="QuicSess2", file=QSF, func="QuicSession." + func, params=params, ret="None",
+                tparams=["σ"], state=dict(type=QS_ST, param="st"), always_res=True, places=QS_PLACES, maybe_keys=QS_KEYS,
+                consts=PTYPE, attr_funcs=QS_ATTRS, classes=QS_CLASSES, externals=[QS_EXT[e] for e in ext],
+                theorem=f"QSess.{name or func}_eq_model")
+    spec.update(more)
+    SPECS.append(spec)
+
+
+qs_spec("handle_frame", [("frame", OUT)], ["handle_crypto_frame"],
+        state_calls={"self.handle_crypto_frame": dict(kind="extshared", lean="handle_crypto_frame", args=[OUT], ret="None")})
+# decrypt_packet in three fragments of its `try:` body (the whole body, continuation-passed, is 1400 lines of Lean): the decryptor
+# selection, the associated data, and everything from `decryptor.decrypt` on (AEAD check → largest packet number → parse_frames →
+# handle_frame loop). NOT covered: that the fragments run in this order inside one try/except.
+qs_spec("decrypt_packet", [("quic_packet", PKT)], ["check_key_epoch"], name="decrypt_select",
+        select={"start": "if isinstance(quic_packet, ShortQuicPacket):"}, maybe_locals={"decryptor": QDEC},
+        outs=[("decryptor", f"Option {QDEC}")],
+        state_calls={"self.check_key_epoch": dict(kind="extshared", lean="check_key_epoch", args=["Option Nat", "Bool"], ret="None")})
+qs_spec("decrypt_packet", [("quic_packet", PKT)], [], name="decrypt_aad",
+        select={"start": "if isinstance(quic_packet, LongQuicPacket):"}, maybe_locals={"associated_data": "Bytes"},
+        outs=[("associated_data", "Option Bytes")])
+qs_spec("decrypt_packet", [("quic_packet", PKT), ("decryptor", QDEC), ("packet_number", "Bytes"), ("associated_data", "Bytes")],
+        ["handle_crypto_frame", "set_largest_packet_number", "dec_decrypt", "parse_frames"], name="decrypt_rest",
+        select={"start": "payload = decryptor.decrypt(", "end": "for frame in frames:"},
+        calls={"parse_frames": dict(lean="parse_frames", args=["Bytes", PKT], ret=f"List {OUT}", raises=True)},
+        obj_methods={(QDEC, "decrypt"): dict(lean="dec_decrypt", args=["Option Bytes", "Bytes", "Bytes", "Bool"], ret="Bytes", raises=True)},
+        state_calls={"self.set_largest_packet_number": dict(kind="extshared", lean="set_largest_packet_number", args=[PKT, "Bytes"], ret="None"),
+                     "self.handle_frame": dict(kind="shared", lean="QS.handle_frame", exts=["handle_crypto_frame"], args=[OUT], ret="None")})
+
 THEOREMS = _uniq(theorem_of(s) for s in SPECS)
 
 
@@ -865,8 +944,8 @@ MODULES = group_modules(GROUPS)          # all groups (`TLX.Props.Translated` im
 # property → the groups whose translated functions its model functions are (what the check proves besides its own modules)
 CHECK_GROUPS = {
     "C01": ["TlsSess", "Suites", "TlsSess2", "Decrypt"],
-    "C02": ["QuicDissect", "QuicSess", "Pn", "Varint", "Frames", "QuicDissect2", "QuicTls"],
-    "C03": ["TlsSess", "QuicDissect", "Varint", "QuicDissect2", "TlsSess2"],
+    "C02": ["QuicDissect", "QuicSess", "Pn", "Varint", "Frames", "QuicDissect2", "QuicTls", "QuicSess2"],
+    "C03": ["TlsSess", "QuicDissect", "Varint", "QuicDissect2", "TlsSess2", "QuicSess2"],
     "C04": ["Demux", "QuicSess", "QuicDissect"],
     "C05": ["Reasm", "Reasm2"],
     "C06": ["Builders"],
@@ -876,7 +955,7 @@ CHECK_GROUPS = {
     "C13": ["TlsSess", "TlsSess2"],
     "C14": ["Suites"],
     "C15": ["KeySched"],
-    "C16": ["Pn"],
+    "C16": ["Pn", "QuicSess2"],
     "C17": ["Varint", "Frames"],
     "C18": ["Demux"],
 }
